@@ -68,11 +68,47 @@ def main(tier):
         if both_live < 10 and not run.violations:
             raise common.HarnessError('vacuous: clients were almost never live together in ' + label)
         samples.append({'search': label, 'history': [{'event': proto.ev_str(a), 'output': c} for a, b, c in s.trace(len(s.states) - 1)]})
+    # ---- history independence for a newcomer (merge-soundness differential) on a rich solo alphabet
+    merge_pairs = 0
+    if not run.out_of_time(60):
+        label = 'solo/hurry/login+drone/t30'
+        sp = pcommon.S(label, 'login+drone', 30, [1], alpha.scen_hurry([1]))
+        kw = dict(sp); kw.pop('label')
+        s = psearch.Search(run, kw.pop('services'), kw.pop('rules'), kw.pop('timeout'), kw.pop('ids'), kw.pop('alphabet'), label=label, **kw)
+        s.merge_cap = 6 if tier == 'quick' else 40
+        s.go()
+        states += len(s.states); trans += s.transitions
+        complete = complete and s.complete
+        n, bad = s.merge_check(limit=600 if tier == 'quick' else 6000)
+        merge_pairs += n
+        for text, rep in bad:
+            run.violation('C07.history-dependence', '[%s] %s' % (label, text), rep, dedup='merge|' + text[:60])
+        per.append({'search': label, 'states': len(s.states), 'transitions': s.transitions, 'fixpoint': s.complete, 'merged_history_pairs_compared': n})
+        if n < 50 and not run.violations:
+            raise common.HarnessError('vacuous: only %d merged history pairs were compared' % n)
+    sweep = pcommon.serial_sweep(run, ('C07.',)) if not run.out_of_time(40) else {}
     cov = {'states': states, 'transitions': trans, 'traces_validated_against_impl': conf, 'samples': samples, 'exhaustive': complete,
-           'searches': per, 'witnesses': sorted(witnesses),
+           'searches': per, 'witnesses': sorted(witnesses), 'merged_history_pairs_compared': merge_pairs, **sweep,
            'explanation': 'differential oracle with no hand-written expectation: the solo automaton of each client is recorded from the implementation, then every step of the '
                           'multi-client product search is compared with it; state of a client = its request record + module record + monitor record'}
     return run.finish(cov, assumptions=['per-client state projection (request record, xquery record, observer record) captures everything the daemon keeps per client',
                                         'service reference counts are not part of the projection (read only on reload, see C17)'])
 
-replay = pcommon.replay
+def replay(obj):
+    r = obj['replay']
+    if r.get('engine') == 'E1-merge':
+        b = build.build()
+        outs = []
+        with e1.Server(r['conf'], builddir=b) as srv:
+            for hist, ser in ((r['hist_a'], r['serial_a']), (r['hist_b'], r['serial_b'])):
+                ctx = {'cur': {r['id']: ser + 1}, 'old': {}, 'serial': ser}
+                conc = [proto.render(tuple(e), ctx) for e in r['suffix']]
+                res, status, err, ex = srv.trace([tuple(h) for h in hist] + conc, 0)
+                outs.append([[psearch._norm_line(l) for l in x.out] for x in res[len(hist):]])
+                print('history %s\n  -> %s' % ([h[1] if len(h) > 1 else h[0] for h in hist], outs[-1]))
+        print('DIFFERENT' if outs[0] != outs[1] else 'same')
+        return 1 if outs[0] != outs[1] else 0
+    if r.get('engine') == 'E1-sweep':
+        print(obj['what']); print('re-run: bin/check %s quick (deterministic enumeration)' % obj['property'])
+        return 1
+    return pcommon.replay(obj)
